@@ -377,7 +377,11 @@ def run_check(mod: Any, tier: str, base_seed: int, runs: int | None = None, proc
         import multiprocessing as mp
         from concurrent.futures.process import BrokenProcessPool
 
-        with ProcessPoolExecutor(max_workers=procs, mp_context=mp.get_context("fork")) as ex:
+        # No ``with``: leaving the block would join the executor's manager thread, and that join can hang for good when the
+        # budget ran out with thousands of futures still queued and the workers were terminated under it (seen once: a
+        # thorough C24 run sat at 0 % CPU for 35 minutes).  The pool is shut down without waiting and its processes killed.
+        ex = ProcessPoolExecutor(max_workers=procs, mp_context=mp.get_context("fork"))
+        try:
             futs = [ex.submit(_worker, t) for t in tasks]
             for f, t in zip(futs, tasks):
                 left = budget_s - (time.monotonic() - t0)
@@ -397,8 +401,11 @@ def run_check(mod: Any, tier: str, base_seed: int, runs: int | None = None, proc
                 except Exception as exc:  # noqa: BLE001
                     harness_errors.append(f"worker failed: {type(exc).__name__}: {exc}")
                     break
-            if timed_out or harness_errors:
-                for p in list(getattr(ex, "_processes", {}).values()):
+        finally:
+            procs_ = list((getattr(ex, "_processes", None) or {}).values())
+            ex.shutdown(wait=False, cancel_futures=True)
+            if timed_out or harness_errors or crashed_tasks:
+                for p in procs_:
                     try:
                         p.terminate()
                     except Exception:  # noqa: BLE001
